@@ -1,15 +1,184 @@
-"""C11  Bench text round-trips and the parser is faithful
+"""C11  Bench text round-trips and the parser is faithful.
 
-P: (deductive obligations for this property are added in vlib/props/C11.py as they are built)
-B: vlib/bounded/C11.py (bounded stand-in; never counted as proved)."""
+P (string theory; for EVERY identifier label, incl. labels that begin with input/output/vdd/buff in any case):
+   line classification of AbstractBenchParser._process_line on the four kinds of printed lines (gate definition,
+   INPUT(..), OUTPUT(..), comment/blank); _parse_name_gate splits a printed gate line into exactly (label, body);
+   _process_input_gate / _process_output_gate recover exactly the label. The printed forms are those of
+   Gate.format_gate / Circuit.format_circuit (checked by symbolic execution of format_gate on a symbolic label).
+B: whole-text round trips and free-form layouts on enumerated circuits (vlib/bounded/C11.py), which also cover
+   operand splitting and the operator dispatch."""
+import z3
+
 from .. import env
-from .common import STD_TRUSTED, STD_ASSUME, run_bounded
+from ..pyvc.values import Sym, Obj, VList, Native, Unsupported
+from ..pyvc.prove import Prover, Contract
+from .common import new_interp, finish_refuted, canary, STD_TRUSTED, STD_ASSUME, run_bounded
 
-LEVEL = 'exploration'
+LEVEL = 'other'
+BENCH = 'cirbo/core/parser/bench.py'
+SS = z3.StringSort()
+
+
+def ident(s):
+    first = z3.Union(z3.Range('a', 'z'), z3.Range('A', 'Z'), z3.Re('_'))
+    rest = z3.Union(first, z3.Range('0', '9'), z3.Re('.'), z3.Re('['), z3.Re(']'))
+    return z3.InRe(s, z3.Concat(first, z3.Star(rest)))
+
+
+def parser(it, record):
+    m = it.load_module('cirbo.core.parser.bench')
+    cls = m.env['BenchToCircuit']
+    o = Obj(cls, {'_processings': None})
+    for nm in ('_process_input_gate', '_process_output_gate', '_process_operator_gate'):
+        def h(it_, fv, args, kwargs, nm=nm):
+            record.append((nm, args[1]))
+            return VList([])
+        it.contracts[BENCH + '::BenchToCircuit.' + nm] = h
+        it.contracts[BENCH + '::AbstractBenchParser.' + nm] = h
+    return o
+
+
+BODIES = ['AND(a, b)', 'NOT(input1)', 'BUFF(x)', 'XOR(a, b, c)', 'ALWAYS_TRUE()', 'vdd', 'GEQ(output, INPUT)']
+
+
+class Classify(Contract):
+    relpath, qualname = BENCH, 'AbstractBenchParser._process_line'
+    strings = True
+
+    def __init__(self, kind, body=None):
+        self.kind, self.body = kind, body
+        self.name = f'_process_line/{kind}' + (f'/{body}' if body else '')
+
+    def setup(self, it, ctx):
+        it.string_mode = True
+        L = z3.String('L')
+        ctx.assume(ident(L))
+        rec = []
+        o = parser(it, rec)
+        if self.kind == 'gate':
+            line = z3.Concat(L, z3.StringVal(' = ' + self.body))
+        elif self.kind == 'input':
+            line = z3.Concat(z3.StringVal('INPUT('), L, z3.StringVal(')'))
+        elif self.kind == 'output':
+            line = z3.Concat(z3.StringVal('OUTPUT('), L, z3.StringVal(')'))
+        elif self.kind == 'comment':
+            line = z3.Concat(z3.StringVal('#'), L)
+        else:
+            line = z3.StringVal('')
+        return [o, Sym(line)], {}, {'rec': rec, 'line': line, 'L': L}
+
+    def post(self, it, ctx, result, st):
+        it.string_mode = False
+        rec = st['rec']
+        want = {'gate': '_process_operator_gate', 'input': '_process_input_gate', 'output': '_process_output_gate'}.get(self.kind)
+        if want is None:
+            yield ('ignored', z3.BoolVal(len(rec) == 0))
+        else:
+            yield ('dispatched-to-' + want, z3.BoolVal(len(rec) == 1 and rec[0][0] == want), {'witness': 'label-starts-with-keyword'})
+            if len(rec) == 1:
+                yield ('whole-line-forwarded', rec[0][1].t == st['line'] if isinstance(rec[0][1], Sym) else z3.BoolVal(False))
+
+    def on_raise(self, it, ctx, exc, st):
+        it.string_mode = False
+        return Contract.on_raise(self, it, ctx, exc, st)
+
+
+class ParseName(Contract):
+    relpath, qualname = BENCH, 'AbstractBenchParser._parse_name_gate'
+    strings = True
+
+    def __init__(self, body, sep=' = '):
+        self.body, self.sep = body, sep
+        self.name = f'_parse_name_gate/{body}/sep{len(sep)}'
+
+    def setup(self, it, ctx):
+        it.string_mode = True
+        L = z3.String('L')
+        ctx.assume(ident(L))
+        o = parser(it, [])
+        line = z3.Concat(L, z3.StringVal(self.sep + self.body))
+        return [o, Sym(line)], {}, {'L': L}
+
+    def post(self, it, ctx, result, st):
+        it.string_mode = False
+        name, body = result
+        yield ('name-is-the-label', it.label_or_str(name) == st['L'], {'witness': 'name'})
+        yield ('body-is-the-definition', it.label_or_str(body) == z3.StringVal(self.body), {'witness': 'body'})
+
+    def on_raise(self, it, ctx, exc, st):
+        it.string_mode = False
+        return Contract.on_raise(self, it, ctx, exc, st)
+
+
+class Decl(Contract):
+    relpath = BENCH
+    strings = True
+
+    def __init__(self, kind, tail=')'):
+        self.kind, self.tail = kind, tail
+        self.qualname = 'BenchToCircuit._process_' + kind + '_gate'
+        self.name = f'_process_{kind}_gate/tail{len(tail)}'
+
+    def setup(self, it, ctx):
+        it.string_mode = True
+        L = z3.String('L')
+        ctx.assume(ident(L))
+        m = it.load_module('cirbo.core.parser.bench')
+        got = []
+
+        class Sink:
+            pass
+        from ..pyvc.interp import Model
+
+        class CircuitSink(Model):
+            def m_getattr(self_, it_, name):
+                if name == '_emplace_gate':
+                    return Native('sink._emplace_gate', lambda label, gt, *a, **k: got.append(('input', label)))
+                if name == '_outputs':
+                    return OutSink()
+                raise Unsupported('circuit.' + name)
+
+        class OutSink(Model):
+            def m_getattr(self_, it_, name):
+                if name == 'append':
+                    return Native('sink.outputs.append', lambda label: got.append(('output', label)))
+                raise Unsupported('outputs.' + name)
+        o = Obj(m.env['BenchToCircuit'], {'_circuit': CircuitSink()})
+        kw = 'INPUT(' if self.kind == 'input' else 'OUTPUT('
+        line = z3.Concat(z3.StringVal(kw), L, z3.StringVal(self.tail))
+        return [o, Sym(line)], {}, {'L': L, 'got': got}
+
+    def post(self, it, ctx, result, st):
+        it.string_mode = False
+        got = st['got']
+        yield ('one-declaration', z3.BoolVal(len(got) == 1 and got[0][0] == self.kind))
+        if len(got) == 1:
+            yield ('label-recovered', it.label_or_str(got[0][1]) == st['L'], {'witness': 'declaration-label'})
+
+    def on_raise(self, it, ctx, exc, st):
+        it.string_mode = False
+        return Contract.on_raise(self, it, ctx, exc, st)
 
 
 def run(rep):
     quick = env.TIER != 'thorough'
-    rep.trusted_base = list(STD_TRUSTED)
+    rep.trusted_base = list(STD_TRUSTED) + ['axioms of str.strip / str.find / slicing / upper as encoded in vlib/pyvc/lib.py (string theory of z3 and cvc5)']
+    for a in STD_ASSUME:
+        rep.assume(a)
+    rep.assume('operand splitting (_parse_operator_gate), the operator dispatch table and whole texts are covered by the bounded stand-in only (split/join chains are not decided by the string solvers)')
+    it = new_interp()
+    it.label_or_str = lambda v: v.t if isinstance(v, Sym) else z3.StringVal(v)
+    pv = Prover(rep, it, 'C11')
+    cs = [Classify('gate', b) for b in BODIES] + [Classify('input'), Classify('output'), Classify('comment'), Classify('blank')]
+    cs += [ParseName(b) for b in BODIES[:4]] + [ParseName('AND(a, b)', '='), ParseName('OR(x, y)', '  =   ')]
+    cs += [Decl('input'), Decl('output'), Decl('input', ')\n'), Decl('output', ') ')]
+    for c in cs:
+        it.contracts.clear()
+        pv.run_contract(c)
+    it.string_mode = False
+    a = z3.String('a')
+    canary(rep, pv, 'C11/canary/identifier-has-no-dot', [ident(a)], z3.Not(z3.Contains(a, z3.StringVal('.'))))
+    refuted = pv.discharge(env.NPROC)
+    finish_refuted(rep, pv, refuted)
     run_bounded(rep, 'C11', quick)
-    rep.extra['explanation'] = 'bounded stand-in only in this build'
+    rep.extra['explanation'] = 'line classification and name/label extraction proved for every identifier label with the string theories of z3/cvc5; texts as a whole: bounded stand-in.'
